@@ -1267,7 +1267,9 @@ impl RaftLogManager {
     ) {
         log::info!("strip_log_to_index end_index:{}", end_index);
         let mut pop_count = 0;
-        for item in &mut self.logs {
+        // from the newest file down: the catalogue is in ascending order and may start with closed files (a snapshot pointer
+        // file, rolled-over files) that lie entirely below the cut
+        for item in self.logs.iter_mut().rev() {
             if end_index < item.get_log_range_end_index() {
                 let log_actor = if let Some(log_actor) = item.log_actor.as_ref() {
                     log_actor.clone()
